@@ -62,7 +62,8 @@ def oracle(line, meta):
             continue
         if cls in LAGCLASSES and lags[c] != "0":
             return "delay: channel %d of the output matches the input best at lag %s, not 0" % (c, lags[c])
-        if int(selfs[c]) != c:
+        # sparse clicks / bursts can leak between point-coupled channels at the lowest qualities: identity is judged on dense content
+        if cls in (0, 1, 2, 4, 5) and int(selfs[c]) != c:
             return "permuted: output channel %d matches input channel %s best" % (c, selfs[c])
         if snrs[c].startswith("S"):
             if pin == 0.0:
